@@ -258,6 +258,8 @@ def run(ctx):
     ctx.rule("C07.stack", "no composition the library publishes or builds holds an answering layer twice", floor=1)
     if not rule_composition(ctx, "C07.stack"):
         return
+    from . import c09
+    ctx.guarded("C07.notif", c09.rule_str, ctx, "C07.notif")
     ctx.guarded("C07.notif", rule_notif, ctx, repo, ctx.tier)
     ctx.guarded("C07.call", rule_call, ctx, repo)
     ctx.guarded("C07.ping", rule_ping, ctx, repo)
